@@ -42,6 +42,7 @@ def run(tier):
     binary = vf.build('c07', ['c07.cpp'])
     gens = [vf.tlc_gen('gen/MC_C07', c, timeout=3000) for c in cfgs(tier)]
     totals = vf.g_replay(rep, binary, gens, sig)
+    rep.coverage['known_findings_replayed'] = vf.witness_findings(PROP, binary)
     cov = rep.coverage
     cov['traces_validated_against_impl'] = totals.get('cases', 0)
     cov['evaluations'] = totals.get('checks', 0)
